@@ -54,6 +54,9 @@ func NewFloatListDecoder(reuseRecords bool) *FloatListDecoder {
 }
 
 func (d *FloatListDecoder) makeFloatSlice(n uint32) []float64 {
+	if n > maxPrealloc {
+		n = maxPrealloc
+	}
 	if d.sl == nil {
 		return make([]float64, 0, n)
 	}
